@@ -28,7 +28,7 @@ def run(ctx):
     binary = vlib.build_harness(ctx, "h-crdt")
     consts = dict(BASE, **GRIDS[ctx.tier])
     mc_cfg = vlib.cfg_text(constants=dict(consts, EmitEdges=False), invariants=["C09_HiBelowClock"],
-                           properties=["C09_Step"], view="MCView")
+                           properties=["C09_Step", "C09_LemmaFormAgrees"], view="MCView")
     mc, text = vlib.run_tlc(ctx, "MC_HLC", mc_cfg, "mc", workers=8, extra=["-coverage", "1"], timeout=1500)
     mc_ok = vlib.require_clean_mc(ctx, mc, text, "MC_HLC")
     ctx.log("MC_HLC: %d distinct, %d generated, %s" % (mc["distinct"], mc["generated"], "ok" if mc_ok else mc["violated"]))
@@ -79,6 +79,9 @@ def run(ctx):
         "constants": {k: sorted(v) if isinstance(v, set) else v for k, v in consts.items()},
         "checker_cmd": mc["cmd"],
     }
+    if ctx.tier == "thorough":
+        # unbounded times: a successful send / recv moves the clock strictly forward, past the message, within the drift
+        cov["tlaps_lemma"] = vlib.run_tlaps(ctx, "HLCMonotone", ["HLCFields"])
     return vlib.finish(ctx, "model_checking", cov, ASSUMPTIONS)
 
 
